@@ -44,7 +44,8 @@ def spell_partition(draw, assign, explicit=False, form=None):
 
 
 @st.composite
-def valid_spec(draw, sm, want_mc=None, want_mixed=None, explicit=False, req_form=None):
+def valid_spec(draw, sm, want_mc=None, want_mixed=None, explicit=False, req_form=None,
+               shadow=False):
     table = gen_shell.port_table(sm)
     prov = [p['name'] for p in table if p['dir'] == 'provides']
     req = [p['name'] for p in table if p['dir'] == 'requires' and not p['injected']]
@@ -52,7 +53,7 @@ def valid_spec(draw, sm, want_mc=None, want_mixed=None, explicit=False, req_form
     use_mc = bool(cands) and (want_mc if want_mc is not None else draw(st.integers(0, 2)) == 0)
     mc = None
     if use_mc:
-        if 'many_provides' in sm.get('features', []) and draw(st.integers(0, 3)) != 0:
+        if 'many_provides' in sm.get('features', []):
             provs = [p['name'] for p in table if p['dir'] == 'provides']
             inner = [c for c in cands if c[0] in provs[1:-1]]
             cands = inner or cands
@@ -84,7 +85,7 @@ def valid_spec(draw, sm, want_mc=None, want_mixed=None, explicit=False, req_form
         suffix += '_'
     prefix = draw(st.sampled_from(PREFIX_POOL))
     shadows = shadow_names(sm)
-    if shadows and draw(st.integers(0, 2)) == 0:
+    if shadows and (shadow or draw(st.integers(0, 2)) == 0):
         # a support-files prefix that reuses the name of a nested namespace of the model
         n = draw(st.sampled_from(shadows))
         prefix = [n] if draw(st.booleans()) else [n, 'Util']
@@ -129,11 +130,11 @@ def _scope_elems(sm):
 
 @st.composite
 def model_and_spec(draw, force=None, want_mc=None, want_mixed=None, collide=False,
-                   explicit=False, req_form=None):
+                   explicit=False, req_form=None, shadow=False):
     feats = list(force or [])
     if want_mc:
         feats.append('mc_ready')
     sm = draw(gen_shell.shell_model(force=feats, collide=collide))
     vs = draw(valid_spec(sm, want_mc=want_mc, want_mixed=want_mixed, explicit=explicit,
-                         req_form=req_form))
+                         req_form=req_form, shadow=shadow))
     return {'sm': sm, 'spec': vs['spec'], 'semantics': vs['semantics']}
